@@ -23,6 +23,7 @@ const (
 	HdrMalformed
 	HdrClose
 	HdrStreamError // valid header, then <stream:error/> instead of features
+	HdrOKForeignID // valid header that also carries attributes called id in other namespaces (xml:id, x:id)
 )
 
 const (
@@ -329,6 +330,8 @@ func (sc *SrvConn) header(kind int) bool {
 		sc.Send(fmt.Sprintf("<?xml version='1.0'?><stream:stream id='%s' from='%s' xmlns='%s' xmlns:stream='%s' version='1.0'>", id, sc.S.Domain, ns, nsStream))
 	case HdrOKDecl:
 		sc.Send(fmt.Sprintf("<?xml version=\"1.0\" encoding=\"UTF-8\"?>\n<stream:stream xmlns:stream=\"%s\" version=\"1.0\" xml:lang=\"en\" xmlns=\"%s\" from=\"%s\" id=\"%s\" >\n", nsStream, ns, sc.S.Domain, id))
+	case HdrOKForeignID:
+		sc.Send(fmt.Sprintf("<?xml version='1.0'?><stream:stream id='%s' from='%s' xmlns='%s' xmlns:stream='%s' xmlns:x='urn:example:x' version='1.0' xml:id='decoy-1' x:id='decoy-2'>", id, sc.S.Domain, ns, nsStream))
 	case HdrWrongRoot:
 		sc.Send(fmt.Sprintf("<?xml version='1.0'?><stream id='%s' xmlns='%s'>", id, ns))
 	case HdrMalformed:
